@@ -191,14 +191,15 @@ def jobs(tier, seed):
         exprs = EXPRS_Q if quick else EXPRS_T
         # quick: initial/final weights always present (arc weights free); thorough: everything free
         alw = []
-        if quick:
+        first = (a, b) == pairs[0]
+        if quick or not first:
             alw = list(range(len(A.arcs), A.K)) + list(range(A.K + len(B.arcs), K))
         for e in exprs:
-            bits = [0] if quick else list(range(min(4, K)))
+            bits = [0] if quick else (list(range(min(4, K))) if first else [0, 1])
             out += split_job(dict(case="rational", params=dict(operands={"A": a, "B": b}, exprs=[e], strings=strings, always=alw, call=(e in EXPRS_Q[:5]))), bits)
     out.append(dict(case="constructors", params=dict(strings=[list(x) for x in all_strings(["a", "b"], 3)])))
     out.append(dict(case="rational", params=dict(operands={"A": "A-S1", "B": "A-S2"}, exprs=[["mul", "A", "B"]], strings=[[], ["a"], ["a", "b"]], canary=True)))
-    seeds = [1 + seed % 1000] if quick else [0, 1 + seed % 1000]
+    seeds = [1 + seed % 1000]
     return [dict(j, hashseed=s) for j in out for s in (seeds if not j["params"].get("canary") else seeds[:1])]
 
 
